@@ -105,6 +105,8 @@ var cycleQueries = [][]string{
 	{`?a "p"@[] ?b`, `?a "p"@[] ?b`},
 	{`?a "q"@[?t] ?b`, `?b "q"@[?t] ?a`},
 	{`?a "p"@[] ?b`, `?b ?p2 ?c`, `?c "p"@[] ?a`, `?a ?p2 ?b`},
+	{`?a "p"@[] ?b`, `?a ?p ?b`},
+	{`?a ?p ?b`, `?a "p"@[] ?b`},
 }
 
 func cycleQuery(r *rand.Rand, k int) query {
@@ -1202,7 +1204,17 @@ func genC14(r *rand.Rand, n int, out func(J), next func() int) {
 			}
 			for _, t := range genTriples(r, 4) {
 				if !seen[tripleKey(t)] {
+					seen[tripleKey(t)] = true
 					sup = append(sup, t)
+				}
+			}
+			// also new predicates between a subject and an object that are already connected (same S+O bucket of the store)
+			for _, t := range ts[:min(3, len(ts))] {
+				f := strings.Split(t, "\t")
+				nt := f[0] + "\t\"r\"@[]\t" + f[2]
+				if !seen[tripleKey(nt)] {
+					seen[tripleKey(nt)] = true
+					sup = append(sup, nt)
 				}
 			}
 			emitv("superset", Spec{Graphs: [][]string{sup}, Query: q.text()}, true)
